@@ -475,7 +475,15 @@ func (Sim) Run(raw json.RawMessage, prop string, keep bool) (res simfw.Result) {
 				}
 			}
 			sort.Strings(still)
-			if li > 0 && len(still) > 0 && st.Fired["changed"] == 0 {
+			// (only when this load was handed the documents as stored: after a torn or otherwise faulted
+			// delivery in this load the loader works from other content and may need other targets)
+			faultedNow := false
+			for _, ev := range st.Events[first:] {
+				if ev.Fault != "" {
+					faultedNow = true
+				}
+			}
+			if li > 0 && len(still) > 0 && st.Fired["changed"] == 0 && !faultedNow {
 				res.Probe("reload-after-unreadable-target")
 				if lerr == nil {
 					res.Violate("C02", "unreadable-target", "C02/"+sig("reload-succeeds-despite-unreadable-target"), fmt.Sprintf("an earlier load by this loader failed because reads of %v failed; they have not succeeded since (this load did not even try), yet loading the same root again returned no error", still))
